@@ -567,5 +567,21 @@ def regen_init_protocol():
     return None
 
 
+def regen_capi():
+    """Gen/CApi.lean: one row per extern "C" function of src/ada_c.cpp + the names declared in include/ada_c.h."""
+    sys.path.insert(0, str(VERIF / "gen"))
+    import capi
+    try:
+        rows = capi.extract(REPO)
+        hdr = capi.header_names(REPO)
+    except Exception as e:  # noqa
+        return f"gen:capi: extractor failed: {type(e).__name__}: {e}"
+    if not rows:
+        return "gen:capi: no extern \"C\" functions found in src/ada_c.cpp"
+    with Lock("lake"):
+        write_if_changed(LEAN / "AdaVerif" / "Gen" / "CApi.lean", capi.to_lean(rows, hdr))
+    return None
+
+
 GENERATORS = {"tables": regen_tables, "parser_exits": regen_parser_exits, "simd": regen_simd,
-              "init_protocol": regen_init_protocol}
+              "init_protocol": regen_init_protocol, "capi": regen_capi}
